@@ -294,6 +294,8 @@ func pgpTexts() []pgpText {
 		{"trailing-blank-lines", "text\n\n\n"},
 		{"utf8", "grüße € 😀\n"},
 		{"long-line", strings.Repeat("x", 5000) + "\n"},
+		// (lines beyond ~20000 characters are outside what GnuPG itself accepts in text documents; relic's handling of very long lines is C01's and C11's matter)
+		{"line-of-19000-bytes", "first\n" + strings.Repeat("y", 19000) + "\nlast\n"},
 		// sizes that put the inline literal packet (1 mode + 1 + len("message.txt")
 		// + 4 time octets + text) on either side of the OpenPGP length-encoding
 		// boundaries 191|192 and 8383|8384 (RFC 4880 4.2.2)
